@@ -38,3 +38,74 @@ func VerifC13_CalcBinSize() {
 	// number of bins needed to cover the duration: ceil(d / size) <= 288  <=>  d <= 288*size
 	v.Assert(d <= 288*int64(size), "a day's worth of bins or fewer cover the query duration")
 }
+
+func verifC13Row(iface string, utc bool) (Row, int64) {
+	ts := v.I64()
+	v.Assume(ts >= 1000000000 && ts <= 2000000000)
+	t := time.Unix(ts, 0)
+	if utc {
+		t = t.UTC() // same instant, different struct (what a row decoded from a remote host's JSON carries)
+	}
+	r := Row{Labels: Labels{Timestamp: t, Iface: iface}}
+	r.Counters.BytesRcvd, r.Counters.BytesSent = uint64(v.U32()), uint64(v.U32())
+	r.Counters.PacketsRcvd, r.Counters.PacketsSent = uint64(v.U32()), uint64(v.U32())
+	return r, ts
+}
+
+// VerifC13_BinTime: re-binning the rows of a time-resolved result conserves every counter, yields exactly
+// one row per bin and label set, labels each row with the canonical aligned bin end (whatever time zone the
+// input rows carried), and a second, unrelated result binned afterwards contains nothing of the first
+// (the pooled map is handed back empty).
+func VerifC13_BinTime() {
+	k := v.Param("K", 2)
+	binSize := time.Duration(k) * 5 * time.Minute
+	b := int64(k) * 300
+	n := v.Param("ROWS", 3)
+	var rows Rows
+	var want [4]uint64
+	var tss []int64
+	for i := 0; i < n; i++ {
+		r, ts := verifC13Row("eth0", i == 0)
+		rows = append(rows, r)
+		tss = append(tss, ts)
+		want[0] += r.Counters.BytesRcvd
+		want[1] += r.Counters.BytesSent
+		want[2] += r.Counters.PacketsRcvd
+		want[3] += r.Counters.PacketsSent
+	}
+	res := &Result{Rows: rows}
+	tb := NewTimeBinner(24*time.Hour, binSize)
+	v.Assert(tb.BinTime(nil, res) == nil, "binning succeeds")
+	v.Reach("binned rows")
+	var got [4]uint64
+	for i, r := range res.Rows {
+		got[0] += r.Counters.BytesRcvd
+		got[1] += r.Counters.BytesSent
+		got[2] += r.Counters.PacketsRcvd
+		got[3] += r.Counters.PacketsSent
+		u := r.Labels.Timestamp.Unix()
+		v.Assert(u%b == 0, "every row is labelled with an aligned bin end")
+		v.Assert(r.Labels.Timestamp == time.Unix(u, 0), "every row carries the canonical time value of its bin")
+		for j := 0; j < i; j++ {
+			v.Assert(res.Rows[j].Labels.Timestamp.Unix() != u, "one row per bin and label set")
+		}
+	}
+	v.Assert(got == want, "binning conserves the counters")
+	v.Assert(res.Summary.Hits.Total == len(res.Rows), "the hit count is the number of binned rows")
+	// every input row's bin is present
+	for _, ts := range tss {
+		found := false
+		for _, r := range res.Rows {
+			if r.Labels.Timestamp.Unix() == BinTimestamp(ts, binSize) {
+				found = true
+			}
+		}
+		v.Assert(found, "every input row is in the row of its bin")
+	}
+	// a second, unrelated result
+	r2, _ := verifC13Row("eth1", false)
+	res2 := &Result{Rows: Rows{r2}}
+	v.Assert(tb.BinTime(nil, res2) == nil, "binning succeeds")
+	v.Assert(len(res2.Rows) == 1 && res2.Rows[0].Labels.Iface == "eth1", "a later result contains only its own rows")
+	v.Assert(res2.Rows[0].Counters == r2.Counters, "a later result keeps its own counters")
+}
